@@ -21,6 +21,9 @@ REQUIRED_THEOREMS = ["overshoot_le_one_alloc", "thr_is_twice_survivors", "no_unb
 # the models were written against (Props/StateInventory)
 THEOREM_MODULES.append("Yarel.Props.StateInventory")
 REQUIRED_THEOREMS += ['state_of_heap']
+# who writes the state the mechanism models are about: the set of write sites per group of fields, regenerated on every run (Props/StateWrites)
+THEOREM_MODULES.append("Yarel.Props.StateWrites")
+REQUIRED_THEOREMS += ['writers_of_heap_accounting']
 LEVEL = "proof"
 ASSUMPTIONS = [
     "pacing model Yarel/Model/Pacing.lean transcribes Heap::allocate_raw/collect_if_required/collect (tie: replay of real alloc events)",
